@@ -105,6 +105,9 @@ pub fn verify(t: &TermState, cfg: &zvt_feig_terminal::config::Config) -> Vec<Str
     let mut opened = vec![false; n];
     let mut term_closed = vec![false; n];
     let mut cmds: Vec<usize> = vec![0; n];
+    // just-in-time delays add up inside one timed scope (the reconnect handshake, or the command
+    // plus its first reply): two of them on one connection may legitimately exceed the time-out
+    let mut jit: Vec<usize> = vec![0; n];
     let mut last_open: Option<usize> = None;
     for (c, ev) in &t.glog {
         let c = *c;
@@ -116,7 +119,7 @@ pub fn verify(t: &TermState, cfg: &zvt_feig_terminal::config::Config) -> Vec<Str
                     }
                 }
                 if let Some(p) = last_open {
-                    let reason = poisoned[p].is_some() || wrong_serial[p] || t.killed.contains(&p) || term_closed[p];
+                    let reason = poisoned[p].is_some() || wrong_serial[p] || t.killed.contains(&p) || term_closed[p] || jit[p] >= 2;
                     if !reason {
                         problems.push(format!("the client reconnected (connection {c}) although nothing had failed on connection {p}: a connection whose exchanges completed normally must be reused"));
                     }
@@ -130,6 +133,9 @@ pub fn verify(t: &TermState, cfg: &zvt_feig_terminal::config::Config) -> Vec<Str
                 }
                 if l == "serial:wrong" {
                     wrong_serial[c] = true;
+                }
+                if l == "delay:just-in-time" {
+                    jit[c] += 1;
                 }
             }
             ConnEv::TermClosed => term_closed[c] = true,
